@@ -30,7 +30,7 @@ def jobs(tier, seed):
         for src in (0, 1):
             add(kinds, [rnd.randint(0, 1), rnd.randint(0, 1)], src)
     n3 = list(itertools.product(KINDS[:3], repeat=3))
-    light = [k for k in n3 if sum(int(x[-1]) for x in k if x != 'fixed') <= 4]      # quick: at most 4 MA entries in total (each multiplies the paths)
+    light = [k for k in n3 if sum(int(x[-1]) for x in k if x != 'fixed') <= 3 and sum(1 for x in k if x != 'fixed') <= 2]      # quick: at most 2 hopping transceivers with 3 MA entries in total (each multiplies the paths)
     for kinds in (rnd.sample(light, 8) if tier == 'quick' else n3):
         add(kinds, [rnd.randint(0, 1) for _ in range(3)], rnd.randrange(3))
     if tier == 'thorough':
